@@ -246,10 +246,15 @@ func isReloadRequired(entry cacheEntry, checkInterval time.Duration) bool {
 func (c *keyCache) GetOrLoad(id KeyMeta, loader func(KeyMeta) (*internal.CryptoKey, error)) (*cachedCryptoKey, error) {
 	c.rw.RLock()
 	k, ok := c.getFresh(id)
+	if ok {
+		// take the reference while the lock is held: once it is released an eviction or reload
+		// by another goroutine may drop the cache's own reference and destroy the key
+		k = tracked(k)
+	}
 	c.rw.RUnlock()
 
 	if ok {
-		return tracked(k), nil
+		return k, nil
 	}
 
 	c.rw.Lock()
